@@ -1156,6 +1156,11 @@ def obligations(tier):
     obls = []
     route = dict(SCENARIOS)
     route.update({k: EXTRA_SCENARIOS[k] for k in ROUTE_EXTRA})  # the extra scenarios that also state the values
+    from . import c01b  # second catalogue (same oracle)
+
+    route.update(c01b.SCENARIOS)
+    if tier != "quick":
+        route.update(c01b.THOROUGH_ONLY)
     small = lambda vs: (lambda N: vs(max(3, N - 2)))  # noqa: E731 - index[::step] ranges over n <= 4N: keep it inside the wall budget
     route["index[::step]"] = (route["index[::step]"][0], small(route["index[::step]"][1]))
     for name, (fn, vs) in route.items():
